@@ -1,10 +1,35 @@
 /-
   EG.Driver.Conv — model side of the `conv.*` correspondence streams (harness/src/m_conv.rs).
+
+    conv.pairs                     -> From>To:kind;... sorted (kind 0 rgbRgb 1 grayGray 2 grayRgb 3 rgbGray
+                                      4 fromBinary 5 grayBinary 6 rgbBinary)
+    conv.c <From> <To> x y z       -> raw value of To::from(src), src = From::new(x,y,z) / new(x) / (x != 0)
 -/
 import EG.Driver.Util
+import EG.Model.Conv
 namespace EG.Driver
-open EG
+open EG EG.Generated EG.Conv
 
-def handleConv (_stream : String) (_t : Toks) : Option String := none
+def convKindCode : ConvKind → Nat
+  | .rgbRgb => 0 | .grayGray => 1 | .grayRgb => 2 | .rgbGray => 3 | .fromBinary => 4 | .grayBinary => 5 | .rgbBinary => 6
+
+def handleConv (stream : String) (t : Toks) : Option String :=
+  match stream with
+  | "conv.pairs" =>
+    let xs := (convTable.map (fun e => s!"{e.src}>{e.dst}:{convKindCode e.kind}")).mergeSort (fun a b => decide (a ≤ b))
+    some (joinOr ";" xs)
+  | "conv.c" =>
+    let (f, t) := t.str
+    let (d, t) := t.str
+    let (x, t) := t.nat
+    let (y, t) := t.nat
+    let (z, _) := t.nat
+    match convTable.find? (fun e => e.src == f && e.dst == d) with
+    | none => some "noconv"
+    | some e =>
+      match resolve e with
+      | none => some "unresolved"
+      | some r => some (toString (r.b.toRaw (r.apply (mkColor r.a x y z))))
+  | _ => none
 
 end EG.Driver
